@@ -93,6 +93,8 @@ Record Inv (n0 : nat) (h0 : heap) (g : gamma) (a : astate) (e : env) (h : heap) 
   i_inj : forall i j l, g i = Some l -> g j = Some l -> i = j;
   i_next : forall id l, g id = Some l -> id < anext a;
   i_facts : facts_below (anext a) (afld a);
+  i_coll : forall id idx l, lookup_f id coll_fld (afld a) = ANew idx -> g id = Some l ->
+      exists ls, nth_error h l = Some (Coll ls) /\ forall le, In le ls -> n0 <= le < List.length h;
   i_frame : n0 <= List.length h /\ forall l, l < n0 -> nth_error h l = nth_error h0 l
 }.
 
@@ -109,7 +111,7 @@ Lemma inv_alloc n0 h0 g a e h c :
   Inv n0 h0 (extend g (anext a) (List.length h))
       {| aenv := aenv a; afld := afld a; anext := S (anext a) |} e (h ++ [c]).
 Proof.
-  intros I. destruct I as [Ienv Irng Ifld Iinj Inext Ifacts [Ifr1 Ifr2]].
+  intros I. destruct I as [Ienv Irng Ifld Iinj Inext Ifacts Icoll [Ifr1 Ifr2]].
   assert (Hlen : List.length (h ++ [c]) = S (List.length h)) by (rewrite app_length; simpl; lia).
   constructor; simpl.
   - intros x id H. destruct (Ienv x id H) as [l [H1 H2]]. exists l. split; [exact H1|].
@@ -132,27 +134,50 @@ Proof.
   - intros id l H. unfold extend in H. destruct (Nat.eqb_spec id (anext a)) as [E|E]; [lia|].
     specialize (Inext _ _ H). lia.
   - apply (facts_below_mono (anext a)); [lia|exact Ifacts].
+  - intros id idx l Hf Hg. unfold extend in Hg. destruct (Nat.eqb_spec id (anext a)) as [E|E].
+    + subst. rewrite (lookup_f_none_above _ _ _ Ifacts) in Hf. discriminate Hf.
+    + destruct (Icoll _ _ _ Hf Hg) as [ls [Hn Hb]]. pose proof (Irng _ _ Hg) as R. exists ls. split.
+      * rewrite nth_app_old by lia. exact Hn.
+      * intros le Hle. specialize (Hb le Hle). lia.
   - split; [lia|]. intros l Hl. rewrite nth_app_old by lia. apply Ifr2. exact Hl.
+Qed.
+
+(* the heap grows by objects nothing refers to *)
+Lemma inv_grow n0 h0 g a e h cs : Inv n0 h0 g a e h -> Inv n0 h0 g a e (h ++ cs).
+Proof.
+  intros I. destruct I as [Ienv Irng Ifld Iinj Inext Ifacts Icoll [Ifr1 Ifr2]].
+  assert (Hlen : List.length h <= List.length (h ++ cs)) by (rewrite app_length; lia).
+  constructor.
+  - exact Ienv.
+  - intros id l H. specialize (Irng _ _ H). lia.
+  - intros id f id' l fs l' Hf Hg Hn Ha. pose proof (Irng _ _ Hg) as R.
+    rewrite nth_error_app1 in Hn by lia. apply (Ifld _ _ _ _ _ _ Hf Hg Hn Ha).
+  - exact Iinj.
+  - exact Inext.
+  - exact Ifacts.
+  - intros id idx l Hf Hg. destruct (Icoll _ _ _ Hf Hg) as [ls [Hn Hb]]. pose proof (Irng _ _ Hg) as R.
+    exists ls. split; [rewrite nth_error_app1 by lia; exact Hn|]. intros le Hle. specialize (Hb le Hle). lia.
+  - split; [lia|]. intros l Hl. rewrite nth_error_app1 by lia. apply Ifr2. exact Hl.
 Qed.
 
 Lemma aeval_sound n0 h0 g a e h r l h1 v a1 :
   Inv n0 h0 g a e h -> ceval r e h l h1 -> aeval r a = (v, a1) ->
   exists g1, Inv n0 h0 g1 a1 e h1 /\ (forall id, v = ANew id -> g1 id = Some l)
-             /\ aenv a1 = aenv a.
+             /\ aenv a1 = aenv a /\ afld a1 = afld a.
 Proof.
   intros I C A. destruct r as [|x f|x|]; simpl in A; injection A as Ev Ea; subst v a1.
   - inversion C as [e0 h2 c| | |]; subst.
-    exists (extend g (anext a) (List.length h)). split; [apply inv_alloc; exact I|]. split; [|reflexivity].
+    exists (extend g (anext a) (List.length h)). split; [apply inv_alloc; exact I|]. split; [|split; reflexivity].
     intros id E. inversion E; subst. apply extend_same.
   - inversion C as [|e0 h2 x0 f0 lx fs l0 Hx Hn Hf| |]; subst.
-    exists g. split; [exact I|]. split; [|reflexivity]. intros id' E.
+    exists g. split; [exact I|]. split; [|split; reflexivity]. intros id' E.
     destruct (lookup_a x a) as [|id] eqn:Lx; [discriminate E|].
     destruct (i_env _ _ _ _ _ _ I x id Lx) as [l1 [H1 H2]]. pose proof (eq_trans (eq_sym Hx) H1) as Q; inversion Q; subst.
     apply (i_fld _ _ _ _ _ _ I id f id' l1 fs l E H2 Hn Hf).
   - inversion C as [| |e0 h2 x0 l0 Hx|]; subst.
-    exists g. split; [exact I|]. split; [|reflexivity]. intros id E.
+    exists g. split; [exact I|]. split; [|split; reflexivity]. intros id E.
     destruct (i_env _ _ _ _ _ _ I x id E) as [l1 [H1 H2]]. pose proof (eq_trans (eq_sym Hx) H1) as Q; inversion Q; subst. exact H2.
-  - inversion C; subst. exists g. split; [exact I|]. split; [|reflexivity]. intros id E. discriminate E.
+  - inversion C; subst. exists g. split; [exact I|]. split; [|split; reflexivity]. intros id E. discriminate E.
 Qed.
 
 Lemma lookup_a_same_env x a a1 : aenv a1 = aenv a -> lookup_a x a1 = lookup_a x a.
@@ -163,7 +188,7 @@ Lemma inv_mutate n0 h0 g a e h id l c :
   Inv n0 h0 g a e h -> g id = Some l ->
   Inv n0 h0 g {| aenv := aenv a; afld := drop_facts id (afld a); anext := anext a |} e (update h l c).
 Proof.
-  intros I Hg. destruct I as [Ienv Irng Ifld Iinj Inext Ifacts [Ifr1 Ifr2]].
+  intros I Hg. destruct I as [Ienv Irng Ifld Iinj Inext Ifacts Icoll [Ifr1 Ifr2]].
   pose proof (Irng _ _ Hg) as Rl.
   constructor; simpl.
   - exact Ienv.
@@ -177,8 +202,40 @@ Proof.
   - exact Iinj.
   - exact Inext.
   - apply facts_below_drop. exact Ifacts.
+  - intros id2 idx l2 Hf Hg2. destruct (Nat.eq_dec id2 id) as [E|E].
+    + subst. rewrite lookup_f_drop_same in Hf. discriminate Hf.
+    + rewrite lookup_f_drop_other in Hf by exact E.
+      assert (l <> l2) by (intros C; subst; apply E; apply (Iinj _ _ _ Hg2 Hg)).
+      destruct (Icoll _ _ _ Hf Hg2) as [ls [Hn Hb]]. exists ls. rewrite update_length.
+      split; [rewrite nth_update_neq by assumption; exact Hn|exact Hb].
   - rewrite update_length. split; [exact Ifr1|]. intros l2 Hl2.
     rewrite nth_update_neq by lia. apply Ifr2. exact Hl2.
+Qed.
+
+(* facts on the reserved field *)
+Lemma lookup_f_coll_facts id L : lookup_f id coll_fld (coll_facts L) = lookup_f id coll_fld L.
+Proof.
+  induction L as [|[i [f v]] L IH]; [reflexivity|].
+  unfold coll_facts in *. cbn [filter fst snd].
+  destruct (Nat.eqb_spec f coll_fld) as [E|E].
+  - subst f. cbn [lookup_f]. rewrite IH. reflexivity.
+  - cbn [lookup_f]. rewrite IH. destruct (Nat.eqb_spec f coll_fld) as [E2|_]; [contradiction|].
+    rewrite andb_false_r. reflexivity.
+Qed.
+
+Lemma lookup_f_coll_facts_other id f L : f <> coll_fld -> lookup_f id f (coll_facts L) = AOld.
+Proof.
+  intros Hf. induction L as [|[i [f2 v]] L IH]; [reflexivity|].
+  unfold coll_facts in *. cbn [filter fst snd].
+  destruct (Nat.eqb_spec f2 coll_fld) as [E|E]; [|exact IH].
+  cbn [lookup_f]. destruct (Nat.eqb_spec f2 f) as [E2|_]; [exfalso; apply Hf; congruence|].
+  rewrite andb_false_r. exact IH.
+Qed.
+
+Lemma facts_below_coll n L : facts_below n L -> facts_below n (coll_facts L).
+Proof.
+  unfold facts_below, coll_facts. intros H. rewrite Forall_forall in *. intros x Hx.
+  apply filter_In in Hx. apply H. exact (proj1 Hx).
 Qed.
 
 Lemma step_sound n0 h0 g a e h s e' h' a' :
@@ -187,12 +244,14 @@ Lemma step_sound n0 h0 g a e h s e' h' a' :
 Proof.
   intros I C A.
   inversion C as [e1 h1 dst src ls c Hs Hc | e1 h1 x f r l h2 lx fs Hev Hx Hn | e1 h1 x f lx fs l c Hx Hn Hf
-                  | e1 h1 x l c Hx | e1 h1 x r l h2 Hev]; subst; simpl in A.
+                  | e1 h1 x l c Hx | e1 h1 x r l h2 Hev
+                  | e1 h1 x cs | e1 h1 x r l h2 lx ls Hev Hx Hn | e1 h1 x f r l h2 lx ls le fs Hev Hx Hn Hle Hne
+                  | e1 h1 x lx ls le c Hx Hn Hle]; subst; simpl in A.
   - (* copy *)
     inversion A; subst; clear A.
     pose proof (inv_alloc _ _ _ _ _ _ c I) as J.
     exists (extend g (anext a) (List.length h)).
-    destruct J as [Jenv Jrng Jfld Jinj Jnext Jfacts Jfr]. simpl in *.
+    destruct J as [Jenv Jrng Jfld Jinj Jnext Jfacts Jcoll Jfr]. simpl in *.
     constructor; simpl.
     + intros x id H. unfold lookup_a in H. simpl in H. destruct (Nat.eqb_spec dst x) as [E|E].
       * inversion H; subst. exists (List.length h). split; [reflexivity|apply extend_same].
@@ -214,16 +273,30 @@ Proof.
     + exact Jnext.
     + unfold facts_below. apply Forall_app. split; [|exact Jfacts].
       destruct (lookup_a src a); [constructor|apply facts_below_copy].
+    + intros id idx l Hf Hg.
+      destruct (Nat.eq_dec id (anext a)) as [E|E].
+      * subst. rewrite extend_same in Hg. inversion Hg; subst.
+        destruct (lookup_a src a) as [|ids] eqn:Ls.
+        -- simpl in Hf. rewrite (lookup_f_none_above _ _ _ (i_facts _ _ _ _ _ _ I)) in Hf. discriminate Hf.
+        -- rewrite lookup_f_copy_same in Hf by (apply (i_facts _ _ _ _ _ _ I)).
+           destruct (i_env _ _ _ _ _ _ I src ids Ls) as [l0 [H1 H2]]. pose proof (eq_trans (eq_sym Hs) H1) as Q; inversion Q; subst.
+           destruct (i_coll _ _ _ _ _ _ I ids idx l0 Hf H2) as [ls0 [Hn0 Hb0]].
+           rewrite Hc in Hn0. inversion Hn0; subst. exists ls0. split; [apply nth_app_new|].
+           intros le Hle. specialize (Hb0 le Hle). rewrite app_length. simpl. lia.
+      * assert (Hf2 : lookup_f id coll_fld (afld a) = ANew idx).
+        { destruct (lookup_a src a) as [|ids]; [exact Hf|]. rewrite lookup_f_copy_other in Hf by exact E. exact Hf. }
+        apply (Jcoll _ _ _ Hf2 Hg).
     + exact Jfr.
   - (* set field *)
     destruct (lookup_a x a) as [|id] eqn:Lx; [discriminate A|].
+    destruct (Nat.eqb_spec f coll_fld) as [Efc|Efc]; [discriminate A|].
     destruct (aeval r a) as [v a1] eqn:Ev. inversion A; subst; clear A.
-    destruct (aeval_sound _ _ _ _ _ _ _ _ _ _ _ I Hev Ev) as [g1 [J [Hv Henv]]].
+    destruct (aeval_sound _ _ _ _ _ _ _ _ _ _ _ I Hev Ev) as [g1 [J [Hv [Henv _]]]].
     exists g1.
     assert (Lx1 : lookup_a x a1 = ANew id) by (rewrite (lookup_a_same_env x a a1 Henv); exact Lx).
     destruct (i_env _ _ _ _ _ _ J x id Lx1) as [l0 [H1 H2]]. pose proof (eq_trans (eq_sym Hx) H1) as Q; inversion Q; subst l0. clear H1 Q.
     pose proof (i_rng _ _ _ _ _ _ J _ _ H2) as Rlx.
-    destruct J as [Jenv Jrng Jfld Jinj Jnext Jfacts [Jfr1 Jfr2]].
+    destruct J as [Jenv Jrng Jfld Jinj Jnext Jfacts Jcoll [Jfr1 Jfr2]].
     constructor; simpl.
     + intros y idy H. apply Jenv. unfold lookup_a in *. simpl in H. exact H.
     + intros id2 l2 H. rewrite update_length. apply (Jrng _ _ H).
@@ -242,6 +315,11 @@ Proof.
     + exact Jinj.
     + exact Jnext.
     + constructor; [simpl; apply (Jnext _ _ H2)|exact Jfacts].
+    + intros id2 idx l2 Hf Hg. simpl in Hf.
+      destruct (Nat.eqb_spec f coll_fld) as [E0|_]; [contradiction|]. rewrite andb_false_r in Hf.
+      destruct (Jcoll _ _ _ Hf Hg) as [ls2 [Hn2 Hb2]]. exists ls2. rewrite update_length.
+      assert (lx <> l2) by (intros C0; subst; rewrite Hn in Hn2; discriminate Hn2).
+      split; [rewrite nth_update_neq by assumption; exact Hn2|exact Hb2].
     + rewrite update_length. split; [exact Jfr1|]. intros l2 Hl2. rewrite nth_update_neq by lia. apply Jfr2. exact Hl2.
   - (* mutate the object a field refers to *)
     destruct (lookup_a x a) as [|id] eqn:Lx; [discriminate A|].
@@ -255,13 +333,119 @@ Proof.
     exists g. apply inv_mutate; assumption.
   - (* let *)
     destruct (aeval r a) as [v a1] eqn:Ev. inversion A; subst; clear A.
-    destruct (aeval_sound _ _ _ _ _ _ _ _ _ _ _ I Hev Ev) as [g1 [J [Hv Henv]]].
-    exists g1. destruct J as [Jenv Jrng Jfld Jinj Jnext Jfacts Jfr].
+    destruct (aeval_sound _ _ _ _ _ _ _ _ _ _ _ I Hev Ev) as [g1 [J [Hv [Henv _]]]].
+    exists g1. destruct J as [Jenv Jrng Jfld Jinj Jnext Jfacts Jcoll Jfr].
     constructor; simpl; try assumption.
     intros y id H. unfold lookup_a in H. simpl in H. destruct (Nat.eqb_spec x y) as [E|E].
     + inversion H; subst. exists l. split; [reflexivity|apply Hv; reflexivity].
     + destruct (Jenv y id) as [l0 [H1 H2]]; [unfold lookup_a; exact H|]. exists l0. split; assumption.
+  - (* a new list of new objects *)
+    inversion A; subst; clear A.
+    pose proof (inv_grow _ _ _ _ _ _ cs I) as I1.
+    pose proof (inv_alloc _ _ _ _ _ _ (Coll (seq (List.length h) (List.length cs))) I1) as J.
+    pose proof (proj1 (i_frame _ _ _ _ _ _ I)) as Fr0.
+    assert (Hl : List.length (h ++ cs) = List.length h + List.length cs) by apply app_length.
+    exists (extend g (anext a) (List.length (h ++ cs))).
+    destruct J as [Jenv Jrng Jfld Jinj Jnext Jfacts Jcoll Jfr]. simpl in *.
+    constructor; simpl.
+    + intros y id H. unfold lookup_a in H. simpl in H. destruct (Nat.eqb_spec x y) as [E|E].
+      * inversion H; subst. exists (List.length h + List.length cs). split; [reflexivity|]. rewrite <- Hl. apply extend_same.
+      * destruct (Jenv y id) as [l [H1 H2]]; [unfold lookup_a; simpl; exact H|]. exists l. split; assumption.
+    + exact Jrng.
+    + intros id f id' l fs l' Hf Hg Hn Ha.
+      destruct (Nat.eqb_spec (anext a) id) as [E|E].
+      * subst id. rewrite extend_same in Hg. inversion Hg; subst l. rewrite nth_app_new in Hn. discriminate Hn.
+      * simpl in Hf. apply (Jfld _ _ _ _ _ _ Hf Hg Hn Ha).
+    + exact Jinj.
+    + exact Jnext.
+    + constructor; [simpl; lia|exact Jfacts].
+    + intros id idx l Hf Hg.
+      destruct (Nat.eqb_spec (anext a) id) as [E|E].
+      * subst id. rewrite extend_same in Hg. inversion Hg; subst l.
+        exists (seq (List.length h) (List.length cs)). split; [apply nth_app_new|].
+        intros le Hle. apply in_seq in Hle. rewrite app_length. simpl. lia.
+      * simpl in Hf. apply (Jcoll _ _ _ Hf Hg).
+    + exact Jfr.
+  - (* append a new object to such a list *)
+    destruct (lookup_a x a) as [|id] eqn:Lx; [discriminate A|].
+    destruct (is_coll id a) eqn:Ic; [|discriminate A].
+    destruct (aeval r a) as [v a1] eqn:Ev. destruct v as [|idv]; [discriminate A|]. inversion A; subst a'; clear A.
+    destruct (aeval_sound _ _ _ _ _ _ _ _ _ _ _ I Hev Ev) as [g1 [J [Hv [Henv Hfld]]]].
+    exists g1.
+    assert (Lx1 : lookup_a x a1 = ANew id) by (rewrite (lookup_a_same_env x a a1 Henv); exact Lx).
+    destruct (i_env _ _ _ _ _ _ J x id Lx1) as [l0 [H1 H2]]. pose proof (eq_trans (eq_sym Hx) H1) as Q; inversion Q; subst l0. clear H1 Q.
+    pose proof (i_rng _ _ _ _ _ _ J _ _ H2) as Rlx.
+    pose proof (i_rng _ _ _ _ _ _ J _ _ (Hv idv eq_refl)) as Rl.
+    unfold is_coll in Ic. rewrite <- Hfld in Ic. destruct (lookup_f id coll_fld (afld a1)) as [|idc] eqn:Lc; [discriminate Ic|].
+    destruct (i_coll _ _ _ _ _ _ J id idc lx Lc H2) as [ls0 [Hn0 Hb0]]. rewrite Hn in Hn0. inversion Hn0; subst ls0. clear Hn0.
+    destruct J as [Jenv Jrng Jfld Jinj Jnext Jfacts Jcoll [Jfr1 Jfr2]].
+    constructor.
+    + exact Jenv.
+    + intros id2 l2 H. rewrite update_length. apply (Jrng _ _ H).
+    + intros id2 f2 id' l2 fs2 l' Hf Hg Hn2 Ha.
+      destruct (Nat.eq_dec l2 lx) as [El|El].
+      * subst l2. rewrite nth_update_eq in Hn2 by lia. discriminate Hn2.
+      * rewrite nth_update_neq in Hn2 by lia. apply (Jfld _ _ _ _ _ _ Hf Hg Hn2 Ha).
+    + exact Jinj.
+    + exact Jnext.
+    + exact Jfacts.
+    + intros id2 idx l2 Hf Hg. rewrite update_length.
+      destruct (Nat.eq_dec l2 lx) as [El|El].
+      * subst l2. exists (ls ++ [l]). split; [apply nth_update_eq; lia|].
+        intros le Hle. apply in_app_or in Hle. destruct Hle as [Hle|[Hle|[]]]; [apply Hb0; exact Hle|subst le; exact Rl].
+      * destruct (Jcoll _ _ _ Hf Hg) as [ls2 [Hn2 Hb2]]. exists ls2.
+        split; [rewrite nth_update_neq by lia; exact Hn2|exact Hb2].
+    + rewrite update_length. split; [exact Jfr1|]. intros l2 Hl2. rewrite nth_update_neq by lia. apply Jfr2. exact Hl2.
+  - (* write a field of an element of such a list *)
+    destruct (lookup_a x a) as [|id] eqn:Lx; [discriminate A|].
+    destruct (is_coll id a) eqn:Ic; [|discriminate A].
+    destruct (aeval r a) as [v a1] eqn:Ev. inversion A; subst a'; clear A.
+    destruct (aeval_sound _ _ _ _ _ _ _ _ _ _ _ I Hev Ev) as [g1 [J [Hv [Henv Hfld]]]].
+    exists g1.
+    assert (Lx1 : lookup_a x a1 = ANew id) by (rewrite (lookup_a_same_env x a a1 Henv); exact Lx).
+    destruct (i_env _ _ _ _ _ _ J x id Lx1) as [l0 [H1 H2]]. pose proof (eq_trans (eq_sym Hx) H1) as Q; inversion Q; subst l0. clear H1 Q.
+    unfold is_coll in Ic. rewrite <- Hfld in Ic. destruct (lookup_f id coll_fld (afld a1)) as [|idc] eqn:Lc; [discriminate Ic|].
+    destruct (i_coll _ _ _ _ _ _ J id idc lx Lc H2) as [ls0 [Hn0 Hb0]]. rewrite Hn in Hn0. inversion Hn0; subst ls0. clear Hn0.
+    pose proof (Hb0 le Hle) as Rle.
+    destruct J as [Jenv Jrng Jfld Jinj Jnext Jfacts Jcoll [Jfr1 Jfr2]].
+    assert (NotColl : forall id2 idx l2, lookup_f id2 coll_fld (afld a1) = ANew idx -> g1 id2 = Some l2 -> l2 <> le).
+    { intros id2 idx l2 Hf Hg C0. subst l2. destruct (Jcoll _ _ _ Hf Hg) as [ls2 [Hn2 _]]. rewrite Hne in Hn2. discriminate Hn2. }
+    constructor; simpl.
+    + exact Jenv.
+    + intros id2 l2 H. rewrite update_length. apply (Jrng _ _ H).
+    + intros id2 f2 id' l2 fs2 l' Hf Hg Hn2 Ha.
+      destruct (Nat.eq_dec f2 coll_fld) as [Ef|Ef].
+      * subst f2. rewrite lookup_f_coll_facts in Hf.
+        pose proof (NotColl _ _ _ Hf Hg) as Ne. rewrite nth_update_neq in Hn2 by lia.
+        destruct (Jcoll _ _ _ Hf Hg) as [ls2 [Hn3 _]]. rewrite Hn3 in Hn2. discriminate Hn2.
+      * rewrite lookup_f_coll_facts_other in Hf by exact Ef. discriminate Hf.
+    + exact Jinj.
+    + exact Jnext.
+    + apply facts_below_coll. exact Jfacts.
+    + intros id2 idx l2 Hf Hg. rewrite lookup_f_coll_facts in Hf. rewrite update_length.
+      pose proof (NotColl _ _ _ Hf Hg) as Ne.
+      destruct (Jcoll _ _ _ Hf Hg) as [ls2 [Hn2 Hb2]]. exists ls2.
+      split; [rewrite nth_update_neq by lia; exact Hn2|exact Hb2].
+    + rewrite update_length. split; [exact Jfr1|]. intros l2 Hl2. rewrite nth_update_neq by lia. apply Jfr2. exact Hl2.
+  - (* change an element of such a list in place *)
+    destruct (lookup_a x a) as [|id] eqn:Lx; [discriminate A|].
+    destruct (is_coll id a) eqn:Ic; [|discriminate A]. inversion A; subst a'; clear A.
+    destruct (i_env _ _ _ _ _ _ I x id Lx) as [l0 [H1 H2]]. pose proof (eq_trans (eq_sym Hx) H1) as Q; inversion Q; subst l0. clear H1 Q.
+    unfold is_coll in Ic. destruct (lookup_f id coll_fld (afld a)) as [|idc] eqn:Lc; [discriminate Ic|].
+    destruct (i_coll _ _ _ _ _ _ I id idc lx Lc H2) as [ls0 [Hn0 Hb0]]. rewrite Hn in Hn0. inversion Hn0; subst ls0. clear Hn0.
+    pose proof (Hb0 le Hle) as Rle.
+    exists g. destruct I as [Ienv Irng Ifld Iinj Inext Ifacts Icoll [Ifr1 Ifr2]].
+    constructor; simpl.
+    + exact Ienv.
+    + intros id2 l2 H. rewrite update_length. apply (Irng _ _ H).
+    + intros id2 f2 id' l2 fs2 l' Hf. discriminate Hf.
+    + exact Iinj.
+    + exact Inext.
+    + constructor.
+    + intros id2 idx l2 Hf. discriminate Hf.
+    + rewrite update_length. split; [exact Ifr1|]. intros l2 Hl2. rewrite nth_update_neq by lia. apply Ifr2. exact Hl2.
 Qed.
+
 
 Lemma exec_sound n0 h0 : forall p g a e h e' h',
   Inv n0 h0 g a e h -> cexec (e, h) p (e', h') -> safe_from a p = true ->
@@ -284,6 +468,7 @@ Proof.
   - intros i j l H. discriminate H.
   - intros id l H. discriminate H.
   - constructor.
+  - intros id idx l H. discriminate H.
   - split; [lia|reflexivity].
 Qed.
 
